@@ -92,7 +92,7 @@ theorem ackChans_dead (st : Core) (id : Id) : (st.ackChans id).dead = st.dead :=
 theorem unsubscribe_spec (m : Mgr) (rid : Id) (s : SubId) (m' : Mgr) (uid : Id) (c : ChanId) (um : Text)
     (h : m.unsubscribe rid s = some (m', uid, c, um)) :
     alookup rid m.requests = some (.sub uid c um) ∧ (alookup s m.subs).isSome ∧
-    m' = { m with requests := areplace rid (.pendingCall none) m.requests, subs := aerase s m.subs } := by
+    m' = ({ m with requests := areplace rid (.pendingCall none) m.requests, subs := aerase s m.subs }).markUnsubscribing uid rid := by
   unfold Mgr.unsubscribe at h
   split at h
   · rename_i uid' c' um' _ h1 h2
@@ -105,7 +105,7 @@ theorem unsubscribe_spec (m : Mgr) (rid : Id) (s : SubId) (m' : Mgr) (uid : Id) 
 theorem removeSubscription_spec (m : Mgr) (rid : Id) (s : SubId) (m' : Mgr) (uid : Id) (c : ChanId) (um : Text)
     (h : m.removeSubscription rid s = some (m', uid, c, um)) :
     alookup rid m.requests = some (.sub uid c um) ∧ (alookup s m.subs).isSome ∧
-    m' = { m with requests := aerase rid m.requests, subs := aerase s m.subs } := by
+    m' = ({ m with requests := aerase rid m.requests, subs := aerase s m.subs }).releaseReservedSlot uid := by
   unfold Mgr.removeSubscription at h
   split at h
   · rename_i uid' c' um' _ h1 h2
@@ -115,10 +115,99 @@ theorem removeSubscription_spec (m : Mgr) (rid : Id) (s : SubId) (m' : Mgr) (uid
     exact ⟨h1, by simp [h2], rfl⟩
   · simp at h
 
+/-- the manager after `unsubscribe` -/
+def unsubMgr (m : Mgr) (rid uid : Id) (s : SubId) : Mgr :=
+  ({ m with requests := areplace rid (.pendingCall none) m.requests, subs := aerase s m.subs }).markUnsubscribing uid rid
+
+/-- the manager after `remove_subscription` -/
+def removedMgr (m : Mgr) (rid uid : Id) (s : SubId) : Mgr :=
+  ({ m with requests := aerase rid m.requests, subs := aerase s m.subs }).releaseReservedSlot uid
+
+theorem unsubMgr_others (m : Mgr) (rid uid : Id) (s : SubId) :
+    (unsubMgr m rid uid s).subs = aerase s m.subs ∧ (unsubMgr m rid uid s).batches = m.batches ∧
+    (unsubMgr m rid uid s).handlers = m.handlers := by
+  unfold unsubMgr
+  obtain ⟨a, b, c⟩ := markUnsubscribing_others ({ m with requests := areplace rid (.pendingCall none) m.requests, subs := aerase s m.subs }) uid rid
+  exact ⟨a, b, c⟩
+
+theorem removedMgr_others (m : Mgr) (rid uid : Id) (s : SubId) :
+    (removedMgr m rid uid s).subs = aerase s m.subs ∧ (removedMgr m rid uid s).batches = m.batches ∧
+    (removedMgr m rid uid s).handlers = m.handlers := by
+  unfold removedMgr
+  obtain ⟨a, b, c⟩ := releaseReservedSlot_others ({ m with requests := aerase rid m.requests, subs := aerase s m.subs }) uid
+  exact ⟨a, b, c⟩
+
+theorem unsubMgr_reqCount (k : Nat) (m : Mgr) (rid uid : Id) (s : SubId) :
+    reqCount k (unsubMgr m rid uid s).requests ≤ reqCount k m.requests := by
+  unfold unsubMgr
+  have h1 := reqCount_markUnsubscribing k ({ m with requests := areplace rid (.pendingCall none) m.requests, subs := aerase s m.subs }) uid rid
+  have h2 := reqCount_areplace_none k rid m.requests
+  simp only at h1
+  omega
+
+theorem removedMgr_reqCount (k : Nat) (m : Mgr) (rid uid : Id) (s : SubId) :
+    reqCount k (removedMgr m rid uid s).requests ≤ reqCount k m.requests := by
+  unfold removedMgr
+  have h1 := reqCount_releaseReservedSlot k ({ m with requests := aerase rid m.requests, subs := aerase s m.subs }) uid
+  have h2 := reqCount_aerase_le k rid m.requests
+  simp only at h1
+  omega
+
+/-- entries after `unsubscribe`: old ones or ticket-less ones -/
+theorem unsubMgr_mem (m : Mgr) (rid uid : Id) (s : SubId) (p : Id × Kind) (h : p ∈ (unsubMgr m rid uid s).requests) :
+    p ∈ m.requests ∨ p = (rid, .pendingCall none) ∨ p = (uid, .pendingUnsub rid) := by
+  unfold unsubMgr at h
+  rcases mem_markUnsubscribing _ uid rid p h with h1 | h1
+  · rcases mem_areplace p rid _ _ h1 with h2 | h2
+    · exact Or.inl h2
+    · exact Or.inr (Or.inl h2)
+  · exact Or.inr (Or.inr h1)
+
+theorem removedMgr_mem (m : Mgr) (rid uid : Id) (s : SubId) (p : Id × Kind) (h : p ∈ (removedMgr m rid uid s).requests) :
+    p ∈ m.requests := by
+  unfold removedMgr at h
+  exact (mem_aerase p rid _ (mem_releaseReservedSlot _ uid p h)).1
+
+/-- lookups of entries that are neither slots nor markers, at keys other than the subscription's own -/
+theorem unsubMgr_alookup (m : Mgr) (rid uid : Id) (s : SubId) (k : Id) (kd : Kind)
+    (hk : kd ≠ .pendingCall none) (hk2 : kd ≠ .pendingUnsub rid) (hne : k ≠ rid) :
+    alookup k (unsubMgr m rid uid s).requests = some kd ↔ alookup k m.requests = some kd := by
+  unfold unsubMgr
+  rw [alookup_markUnsubscribing _ uid rid k kd hk hk2]
+  simp only
+  rw [alookup_areplace_ne k rid _ _ hne]
+
+theorem removedMgr_alookup (m : Mgr) (rid uid : Id) (s : SubId) (k : Id) (kd : Kind)
+    (hk : kd ≠ .pendingCall none) (hne : k ≠ rid) :
+    alookup k (removedMgr m rid uid s).requests = some kd ↔ alookup k m.requests = some kd := by
+  unfold removedMgr
+  rw [alookup_releaseReservedSlot _ uid k kd hk]
+  simp only
+  rw [alookup_aerase_ne k rid _ hne]
+
+/-- at the subscription's own key nothing but a marker / nothing is left -/
+theorem unsubMgr_alookup_rid (m : Mgr) (rid uid : Id) (s : SubId) (h : (alookup rid m.requests).isSome) (kd : Kind)
+    (hk : kd ≠ .pendingCall none) (hk2 : kd ≠ .pendingUnsub rid) : alookup rid (unsubMgr m rid uid s).requests ≠ some kd := by
+  intro c
+  unfold unsubMgr at c
+  rw [alookup_markUnsubscribing _ uid rid rid kd hk hk2] at c
+  simp only at c
+  rw [alookup_areplace_self rid _ _ h] at c
+  simp at c; exact hk c.symm
+
+theorem removedMgr_alookup_rid (m : Mgr) (rid uid : Id) (s : SubId) (kd : Kind) (hk : kd ≠ .pendingCall none) :
+    alookup rid (removedMgr m rid uid s).requests ≠ some kd := by
+  intro c
+  unfold removedMgr at c
+  rw [alookup_releaseReservedSlot _ uid rid kd hk] at c
+  simp only at c
+  rw [alookup_aerase_self] at c
+  simp at c
+
 theorem buildUnsub_spec (st : Core) (rid : Id) (s : SubId) (st' : Core) (msg : FrontMsg)
     (h : buildUnsubscribeMessage st rid s = some (st', msg)) :
     ∃ uid c um, alookup rid st.mgr.requests = some (.sub uid c um) ∧ (alookup s st.mgr.subs).isSome ∧
-      st'.mgr = { st.mgr with requests := areplace rid (.pendingCall none) st.mgr.requests, subs := aerase s st.mgr.subs } ∧
+      st'.mgr = unsubMgr st.mgr rid uid s ∧
       st'.dead = st.dead ∧ st'.cap = st.cap ∧
       st'.chans = modifyAt (fun ch => { dropSender ch with unsubscribed := true }) st.chans c ∧
       msg = .request uid none (unsubRaw uid um s) := by
@@ -130,7 +219,7 @@ theorem buildUnsub_spec (st : Core) (rid : Id) (s : SubId) (st' : Core) (msg : F
     obtain ⟨e1, e2⟩ := h
     subst e1 e2
     obtain ⟨a, b, c'⟩ := unsubscribe_spec _ _ _ _ _ _ _ hu
-    exact ⟨uid, c, um, a, b, by simp [Core.modChan, c'], rfl, rfl, rfl, rfl⟩
+    exact ⟨uid, c, um, a, b, by simp [Core.modChan, c', unsubMgr], rfl, rfl, rfl, rfl⟩
 
 theorem buildUnsub_count (k : Nat) (st : Core) (rid : Id) (s : SubId) (st' : Core) (msg : FrontMsg)
     (h : buildUnsubscribeMessage st rid s = some (st', msg)) :
@@ -139,9 +228,8 @@ theorem buildUnsub_count (k : Nat) (st : Core) (rid : Id) (s : SubId) (st' : Cor
   subst hmsg
   refine ⟨?_, rfl⟩
   unfold coreCount
-  rw [hm]
-  have := reqCount_areplace_none k rid st.mgr.requests
-  simp only
+  rw [hm, (unsubMgr_others st.mgr rid uid s).2.1]
+  have := unsubMgr_reqCount k st.mgr rid uid s
   omega
 
 /-! ### ticket accounting of the handlers -/
@@ -166,6 +254,13 @@ theorem processNotification_noTicket (st : Core) (m : Text) (p : Option Text) :
     · exact noTicket_nil
     · split <;> intro m hm <;> simp [queuedMsgs] at hm
 
+theorem coreCount_release (k : Nat) (st : Core) (uid : Id) :
+    coreCount k { st with mgr := st.mgr.releaseReservedSlot uid } ≤ coreCount k st := by
+  unfold coreCount
+  simp only [(releaseReservedSlot_others st.mgr uid).2.1]
+  have := reqCount_releaseReservedSlot k st.mgr uid
+  omega
+
 theorem processSubscriptionClose_count (k : Nat) (st : Core) (s : SubId) :
     coreCount k (processSubscriptionClose st s) ≤ coreCount k st := by
   unfold processSubscriptionClose
@@ -178,8 +273,9 @@ theorem processSubscriptionClose_count (k : Nat) (st : Core) (s : SubId) :
     | some x =>
       obtain ⟨m', uid, c, um⟩ := x
       obtain ⟨_, _, e⟩ := removeSubscription_spec _ _ _ _ _ _ _ h2
-      simp only [coreCount, modChan_mgr, e]
-      have := reqCount_aerase_le k rid st.mgr.requests
+      have e' : m' = removedMgr st.mgr rid uid s := e
+      simp only [coreCount, modChan_mgr, e', (removedMgr_others st.mgr rid uid s).2.1]
+      have := removedMgr_reqCount k st.mgr rid uid s
       omega
 
 theorem processNotification_count (k : Nat) (st : Core) (m : Text) (p : Option Text) :
@@ -191,19 +287,15 @@ theorem processNotification_count (k : Nat) (st : Core) (m : Text) (p : Option T
     · rfl
     · split <;> simp [coreCount, Core.modChan, Mgr.removeNotificationHandler]
 
-theorem abandonedSubscribe_count (k : Nat) (st : Core) (c : ChanId) (rid : Id) (s : SubId) (t : Ticket) :
-    coreCount k (abandonedSubscribe st c rid s t).1 ≤ coreCount k st ∧
-    compCount k (abandonedSubscribe st c rid s t).2 = (if t.op = k then 1 else 0) ∧
-    NoTicketMsgs (abandonedSubscribe st c rid s t).2 := by
+theorem abandonedSubscribe_count (k : Nat) (st : Core) (c : ChanId) (s : SubId) (t : Ticket) :
+    coreCount k (abandonedSubscribe st c s t).1 = coreCount k st ∧
+    compCount k (abandonedSubscribe st c s t).2 = (if t.op = k then 1 else 0) ∧
+    NoTicketMsgs (abandonedSubscribe st c s t).2 := by
   unfold abandonedSubscribe
-  split
-  · rename_i st' msg h
-    obtain ⟨h1, h2⟩ := buildUnsub_count k _ _ _ _ _ h
-    refine ⟨by simpa [coreCount, Core.modChan] using h1, by simp [compCount], ?_⟩
-    intro m hm
-    simp [queuedMsgs] at hm
-    rw [hm]; exact h2
-  · exact ⟨by simp [coreCount, Core.modChan], by simp [compCount], by intro m hm; simp [queuedMsgs] at hm⟩
+  refine ⟨rfl, by simp [compCount], ?_⟩
+  intro m hm
+  simp [queuedMsgs] at hm
+  rw [hm]; rfl
 
 theorem newChan_mgr (st : Core) (o : Owner) (op : Nat) : (st.newChan o op).1.mgr = st.mgr := rfl
 
@@ -223,6 +315,7 @@ theorem completeSubscribe_count (k : Nat) (st : Core) (r : Response) (uid : Id) 
     compCount k (completeSubscribe st r uid t um).2 + coreCount k (completeSubscribe st r uid t um).1 ≤
       coreCount k st + (if t.op = k then 1 else 0) ∧ NoTicketMsgs (completeSubscribe st r uid t um).2 := by
   unfold completeSubscribe
+  have hrel := coreCount_release k st uid
   cases hp : r.payload with
   | error e =>
     have := compCount_completeIfAlive k st t (.callErr e)
@@ -253,20 +346,65 @@ theorem completeSubscribe_count (k : Nat) (st : Core) (r : Response) (uid : Id) 
           · simp only [compCount, hcc]; omega
           · intro m hm; simp [queuedMsgs] at hm
         · simp only [hal]
-          obtain ⟨a, b, c⟩ := abandonedSubscribe_count k ({ st with mgr := m' }.newChan (.sub s) t.op uid).1 st.chans.length r.id s t
+          obtain ⟨a, b, c⟩ := abandonedSubscribe_count k ({ st with mgr := m' }.newChan (.sub s) t.op uid).1 st.chans.length s t
           exact ⟨by simp only [Bool.false_eq_true, if_false]; omega, by simpa using c⟩
 
+/-- `complete_pending_call`: either a plain pending call, or the acknowledgement of an unsubscribe -/
 theorem completePendingCall_spec (m : Mgr) (id : Id) (m' : Mgr) (t : Option Ticket)
     (h : m.completePendingCall id = some (m', t)) :
-    alookup id m.requests = some (.pendingCall t) ∧ m' = { m with requests := aerase id m.requests } := by
+    (alookup id m.requests = some (.pendingCall t) ∧ m' = { m with requests := aerase id m.requests }) ∨
+    (∃ rid, alookup id m.requests = some (.pendingUnsub rid) ∧ t = none ∧
+      m' = ({ m with requests := aerase id m.requests }).releaseReservedSlot rid) := by
   unfold Mgr.completePendingCall at h
   split at h
   · rename_i t' hl
     simp at h
     obtain ⟨e1, e2⟩ := h
     subst e1 e2
-    exact ⟨hl, rfl⟩
+    exact Or.inl ⟨hl, rfl⟩
+  · rename_i rid hl
+    simp at h
+    obtain ⟨e1, e2⟩ := h
+    subst e1 e2
+    exact Or.inr ⟨rid, hl, rfl, rfl⟩
   · simp at h
+
+/-- common consequences of `complete_pending_call`: only erasures, the other tables untouched -/
+theorem completePendingCall_frame (m : Mgr) (id : Id) (m' : Mgr) (t : Option Ticket)
+    (h : m.completePendingCall id = some (m', t)) :
+    m'.subs = m.subs ∧ m'.batches = m.batches ∧ m'.handlers = m.handlers ∧
+    (∀ p ∈ m'.requests, p ∈ m.requests ∧ p.1 ≠ id) ∧
+    (∀ k, reqCount k m'.requests + (if t.map (·.op) = some k then 1 else 0) ≤ reqCount k m.requests) ∧
+    (∀ k kd, kd ≠ .pendingCall none → k ≠ id → (alookup k m'.requests = some kd ↔ alookup k m.requests = some kd)) ∧
+    alookup id m'.requests = none := by
+  rcases completePendingCall_spec m id m' t h with ⟨hl, e⟩ | ⟨rid, hl, e1, e⟩
+  · subst e
+    refine ⟨rfl, rfl, rfl, fun p hp => mem_aerase p id _ hp, ?_, ?_, alookup_aerase_self id _⟩
+    · intro k
+      have := reqCount_aerase_of_lookup k id _ _ hl
+      cases t with
+      | none => simpa [kindOp] using this
+      | some tk => simpa [kindOp] using this
+    · intro k kd _ hne; rw [alookup_aerase_ne k id _ hne]
+  · subst e1 e
+    obtain ⟨a, b, c⟩ := releaseReservedSlot_others ({ m with requests := aerase id m.requests }) rid
+    refine ⟨a, b, c, ?_, ?_, ?_, ?_⟩
+    · intro p hp; exact mem_aerase p id _ (mem_releaseReservedSlot _ rid p hp)
+    · intro k
+      have h1 := reqCount_releaseReservedSlot k ({ m with requests := aerase id m.requests }) rid
+      have h2 := reqCount_aerase_le k id m.requests
+      simp only at h1
+      simp; omega
+    · intro k kd hk hne
+      rw [alookup_releaseReservedSlot _ rid k kd hk]
+      simp only
+      rw [alookup_aerase_ne k id _ hne]
+    · cases hx : alookup id (({ m with requests := aerase id m.requests }).releaseReservedSlot rid).requests with
+      | none => rfl
+      | some kd =>
+        exfalso
+        have hm := mem_releaseReservedSlot _ rid _ (alookup_mem _ _ _ hx)
+        exact (mem_aerase _ id _ hm).2 rfl
 
 theorem completePendingSubscription_spec (m : Mgr) (id : Id) (m' : Mgr) (uid : Id) (t : Ticket) (um : Text)
     (h : m.completePendingSubscription id = some (m', uid, t, um)) :
@@ -303,22 +441,21 @@ theorem processSingleResponse_count (k : Nat) (st st' : Core) (r : Response) (ef
     | none => simp [hc] at h
     | some x =>
       obtain ⟨m', t⟩ := x
-      obtain ⟨hl, e⟩ := completePendingCall_spec _ _ _ _ hc
+      obtain ⟨_, hb, _, _, hcnt, _⟩ := completePendingCall_frame _ _ _ _ hc
+      have h1 := hcnt k
       cases t with
       | none =>
         simp [hc] at h
         obtain ⟨e1, e2⟩ := h
-        subst e1 e2 e
-        have h1 := reqCount_aerase_le k r.id st.mgr.requests
-        exact ⟨by simp only [coreCount, compCount, ackChans_mgr]; omega, noTicket_nil⟩
+        subst e1 e2
+        exact ⟨by simp only [coreCount, compCount, ackChans_mgr, hb] at h1 ⊢; omega, noTicket_nil⟩
       | some t =>
         simp [hc] at h
         obtain ⟨e1, e2⟩ := h
-        subst e1 e2 e
-        have h1 := reqCount_aerase_of_lookup k r.id _ _ hl
+        subst e1 e2
         have h2 := compCount_completeIfAlive k st t (.response r)
-        simp only [kindOp, Option.some.injEq] at h1
-        refine ⟨by simp only [coreCount]; omega, ?_⟩
+        simp only [Option.map_some, Option.some.injEq] at h1
+        refine ⟨by simp only [coreCount, hb]; omega, ?_⟩
         intro m hm; simp [queuedMsgs_completeIfAlive] at hm
   | pendingSub =>
     simp only [hs] at h
@@ -846,6 +983,7 @@ theorem reqOK_of_noTicket (p : Id × Kind) (h : kindOp p.2 = none) : ReqOK p := 
   | pendingCall t => cases t <;> simp_all [kindOp]
   | pendingSub _ _ _ => simp [kindOp] at h
   | sub _ _ _ => trivial
+  | pendingUnsub _ => trivial
 
 theorem reqsOK_of_shrinks {c c' : Core} (h : Shrinks c c') (hc : ReqsOK c) : ReqsOK c' := by
   intro p hp
@@ -869,9 +1007,13 @@ theorem buildUnsub_shrinks (st : Core) (rid : Id) (s : SubId) (st' : Core) (msg 
   obtain ⟨uid, c, um, _, _, hm, _⟩ := buildUnsub_spec st rid s st' msg h
   intro p hp
   rw [hm] at hp
-  rcases mem_areplace p rid _ _ hp with h1 | h1
+  rcases unsubMgr_mem _ _ _ _ p hp with h1 | h1 | h1
   · exact Or.inl h1
   · rw [h1]; exact Or.inr rfl
+  · rw [h1]; exact Or.inr rfl
+
+theorem shrinks_release (st : Core) (uid : Id) : Shrinks st { st with mgr := st.mgr.releaseReservedSlot uid } :=
+  fun p hp => Or.inl (mem_releaseReservedSlot _ uid p hp)
 
 theorem processSubscriptionClose_shrinks (st : Core) (s : SubId) : Shrinks st (processSubscriptionClose st s) := by
   unfold processSubscriptionClose
@@ -884,9 +1026,10 @@ theorem processSubscriptionClose_shrinks (st : Core) (s : SubId) : Shrinks st (p
     | some x =>
       obtain ⟨m', uid, c, um⟩ := x
       obtain ⟨_, _, e⟩ := removeSubscription_spec _ _ _ _ _ _ _ h2
+      have e' : m' = removedMgr st.mgr rid uid s := e
       intro p hp
-      simp only [modChan_mgr, e] at hp
-      exact Or.inl (mem_aerase p rid _ hp).1
+      simp only [modChan_mgr, e'] at hp
+      exact Or.inl (removedMgr_mem _ _ _ _ p hp)
 
 theorem processNotification_requests (st : Core) (m : Text) (p : Option Text) :
     (processNotification st m p).1.mgr.requests = st.mgr.requests ∧
@@ -902,15 +1045,15 @@ theorem completeSubscribe_shrinks (st : Core) (r : Response) (uid : Id) (t : Tic
     Shrinks st (completeSubscribe st r uid t um).1 := by
   unfold completeSubscribe
   cases hp : r.payload with
-  | error e => exact shrinks_refl _
+  | error e => exact shrinks_release st uid
   | result raw =>
     simp only
     cases hd : decodeSubId raw with
-    | none => exact shrinks_refl _
+    | none => exact shrinks_release st uid
     | some s =>
       simp only
       cases hins : st.mgr.insertSubscription r.id uid s st.chans.length um with
-      | none => exact shrinks_refl _
+      | none => exact shrinks_release st uid
       | some m' =>
         obtain ⟨_, _, e⟩ := insertSubscription_spec _ _ _ _ _ _ _ hins
         have h0 : Shrinks st ({ st with mgr := m' }.newChan (.sub s) t.op uid).1 := by
@@ -924,14 +1067,7 @@ theorem completeSubscribe_shrinks (st : Core) (r : Response) (uid : Id) (t : Tic
         · simp only [hal, if_true]; exact h0
         · simp only [hal]
           unfold abandonedSubscribe
-          cases hb : buildUnsubscribeMessage
-              (({ st with mgr := m' }.newChan (.sub s) t.op uid).1.modChan st.chans.length
-                (fun ch => { dropReceiver ch with hasKind := false })) r.id s with
-          | none => exact fun p hp => h0 p hp
-          | some x =>
-            obtain ⟨st', msg⟩ := x
-            have := buildUnsub_shrinks _ _ _ _ _ hb
-            exact shrinks_trans _ _ _ (fun p hp => h0 p hp) this
+          exact fun p hp => h0 p hp
 
 theorem processSingleResponse_shrinks (st st' : Core) (r : Response) (effs : List Effect)
     (h : processSingleResponse st r = .ok (st', effs)) : Shrinks st st' := by
@@ -943,13 +1079,12 @@ theorem processSingleResponse_shrinks (st st' : Core) (r : Response) (effs : Lis
     | none => simp [hc] at h
     | some x =>
       obtain ⟨m', t⟩ := x
-      obtain ⟨hl, e⟩ := completePendingCall_spec _ _ _ _ hc
+      obtain ⟨_, _, _, hmem, _⟩ := completePendingCall_frame _ _ _ _ hc
       have hst : st'.mgr = m' := by
         cases t <;> simp [hc] at h <;> rw [← h.1] <;> rfl
-      subst e
       intro p hp
       rw [hst] at hp
-      exact Or.inl (mem_aerase p r.id _ hp).1
+      exact Or.inl (hmem p hp).1
   | pendingSub =>
     simp only [hs] at h
     cases hc : st.mgr.completePendingSubscription r.id with
@@ -1239,10 +1374,10 @@ theorem mem_completeIfAlive (st : Core) (t t' : Ticket) (o o' : Outcome)
   · rename_i ha; simp [completions] at h; exact ⟨h.1, h.2, ha⟩
   · simp [completions] at h
 
-theorem abandonedSubscribe_completions (st : Core) (c : ChanId) (rid : Id) (s : SubId) (t : Ticket) :
-    completions (abandonedSubscribe st c rid s t).2 = [] := by
+theorem abandonedSubscribe_completions (st : Core) (c : ChanId) (s : SubId) (t : Ticket) :
+    completions (abandonedSubscribe st c s t).2 = [] := by
   unfold abandonedSubscribe
-  split <;> simp [completions]
+  simp [completions]
 
 theorem completeSubscribe_completions (st : Core) (r : Response) (uid : Id) (t t' : Ticket) (um : Text) (o : Outcome)
     (h : (t', o) ∈ completions (completeSubscribe st r uid t um).2) : t' = t ∧ SubOutcome r o := by
@@ -1288,12 +1423,15 @@ theorem processSingleResponse_completions (st st' : Core) (r : Response) (effs :
     | none => simp [hc] at h
     | some x =>
       obtain ⟨m', t0⟩ := x
-      obtain ⟨hl, e⟩ := completePendingCall_spec _ _ _ _ hc
       cases t0 with
       | none =>
         simp [hc] at h
         rw [h.2] at hm; simp [completions] at hm
       | some t0 =>
+        have hl : alookup r.id st.mgr.requests = some (.pendingCall (some t0)) := by
+          rcases completePendingCall_spec _ _ _ _ hc with ⟨hl, _⟩ | ⟨_, _, e, _⟩
+          · exact hl
+          · simp at e
         simp [hc] at h
         rw [← h.2] at hm
         obtain ⟨a, b, c⟩ := mem_completeIfAlive _ _ _ _ _ hm
@@ -1468,12 +1606,18 @@ theorem hasCall_insert (l : List (Id × Kind)) (id k : Id) (t : Ticket) (v : Kin
   have : id ≠ k := by intro e; subst e; rw [h] at hk; simp at hk
   rw [alookup_cons_ne id k v l this]; exact h
 
+theorem hasCall_release (st : Core) (uid : Id) (id : Id) (t : Ticket) (hc : HasCall st id t) :
+    HasCall { st with mgr := st.mgr.releaseReservedSlot uid } id t := by
+  unfold HasCall at *
+  exact (alookup_releaseReservedSlot st.mgr uid id _ (by simp)).2 hc
+
 theorem buildUnsub_hasCall (st : Core) (rid : Id) (s : SubId) (st' : Core) (msg : FrontMsg) (id : Id) (t : Ticket)
     (h : buildUnsubscribeMessage st rid s = some (st', msg)) (hc : HasCall st id t) : HasCall st' id t := by
   obtain ⟨uid, c, um, h1, _, hm, _⟩ := buildUnsub_spec st rid s st' msg h
-  unfold HasCall
+  unfold HasCall at *
   rw [hm]
-  exact hasCall_replace_sub _ _ _ _ _ _ _ _ hc h1
+  have hne : id ≠ rid := by intro e; subst e; rw [hc] at h1; simp at h1
+  exact (unsubMgr_alookup st.mgr rid uid s id _ (by simp) (by simp) hne).2 hc
 
 theorem processSubscriptionClose_hasCall (st : Core) (s : SubId) (id : Id) (t : Ticket) (hc : HasCall st id t) :
     HasCall (processSubscriptionClose st s) id t := by
@@ -1487,23 +1631,25 @@ theorem processSubscriptionClose_hasCall (st : Core) (s : SubId) (id : Id) (t : 
     | some x =>
       obtain ⟨m', uid, c, um⟩ := x
       obtain ⟨h3, _, e⟩ := removeSubscription_spec _ _ _ _ _ _ _ h2
-      unfold HasCall
-      simp only [modChan_mgr, e]
-      exact hasCall_erase_sub _ _ _ _ _ _ _ hc h3
+      have e' : m' = removedMgr st.mgr rid uid s := e
+      unfold HasCall at *
+      simp only [modChan_mgr, e']
+      have hne : id ≠ rid := by intro c'; subst c'; rw [hc] at h3; simp at h3
+      exact (removedMgr_alookup st.mgr rid uid s id _ (by simp) hne).2 hc
 
 theorem completeSubscribe_hasCall (st : Core) (r : Response) (uid : Id) (t0 : Ticket) (um : Text) (id : Id) (t : Ticket)
     (hc : HasCall st id t) : HasCall (completeSubscribe st r uid t0 um).1 id t := by
   unfold completeSubscribe
   cases hp : r.payload with
-  | error e => exact hc
+  | error e => exact hasCall_release st uid id t hc
   | result raw =>
     simp only
     cases hd : decodeSubId raw with
-    | none => exact hc
+    | none => exact hasCall_release st uid id t hc
     | some s =>
       simp only
       cases hins : st.mgr.insertSubscription r.id uid s st.chans.length um with
-      | none => exact hc
+      | none => exact hasCall_release st uid id t hc
       | some m' =>
         obtain ⟨h1, _, e⟩ := insertSubscription_spec _ _ _ _ _ _ _ hins
         have h0 : HasCall ({ st with mgr := m' }.newChan (.sub s) t0.op uid).1 id t := by
@@ -1515,13 +1661,7 @@ theorem completeSubscribe_hasCall (st : Core) (r : Response) (uid : Id) (t0 : Ti
         · simp only [hal, if_true]; exact h0
         · simp only [hal]
           unfold abandonedSubscribe
-          cases hb : buildUnsubscribeMessage
-              (({ st with mgr := m' }.newChan (.sub s) t0.op uid).1.modChan st.chans.length
-                (fun ch => { dropReceiver ch with hasKind := false })) r.id s with
-          | none => exact h0
-          | some x =>
-            obtain ⟨st', msg⟩ := x
-            exact buildUnsub_hasCall _ _ _ _ _ _ _ hb h0
+          exact h0
 
 theorem processSingleResponse_hasCall (st st' : Core) (r : Response) (effs : List Effect) (id : Id) (t : Ticket)
     (h : processSingleResponse st r = .ok (st', effs)) (hne : r.id ≠ id) (hc : HasCall st id t) : HasCall st' id t := by
@@ -1534,14 +1674,12 @@ theorem processSingleResponse_hasCall (st st' : Core) (r : Response) (effs : Lis
     | none => simp [hcp] at h
     | some x =>
       obtain ⟨m', t0⟩ := x
-      obtain ⟨hl, e⟩ := completePendingCall_spec _ _ _ _ hcp
+      obtain ⟨_, _, _, _, _, hfr, _⟩ := completePendingCall_frame _ _ _ _ hcp
       have hst : st'.mgr = m' := by
         cases t0 <;> simp [hcp] at h <;> rw [← h.1] <;> rfl
-      subst e
-      unfold HasCall
+      unfold HasCall at *
       rw [hst]
-      simp only
-      rw [alookup_aerase_ne id r.id _ hne']; exact hc
+      exact (hfr id _ (by simp) hne').2 hc
   | pendingSub =>
     simp only [hs] at h
     cases hcp : st.mgr.completePendingSubscription r.id with
@@ -1667,17 +1805,7 @@ theorem completeSubscribe_dead (st : Core) (r : Response) (uid : Id) (t : Ticket
         simp only
         cases hal : st.alive t with
         | true => simp only [if_true]; rfl
-        | false =>
-          simp only [Bool.false_eq_true, if_false]
-          unfold abandonedSubscribe
-          cases hb : buildUnsubscribeMessage
-              (({ st with mgr := m' }.newChan (.sub s) t.op uid).1.modChan st.chans.length
-                (fun ch => { dropReceiver ch with hasKind := false })) r.id s with
-          | none => rfl
-          | some x =>
-            obtain ⟨st', msg⟩ := x
-            have h3 := buildUnsub_dead _ _ _ _ _ hb
-            exact h3
+        | false => simp only [Bool.false_eq_true, if_false]; rfl
 
 theorem processSingleResponse_dead (st st' : Core) (r : Response) (effs : List Effect)
     (h : processSingleResponse st r = .ok (st', effs)) : st'.dead = st.dead := by
